@@ -428,25 +428,57 @@ func visitorLoopRule(p *core.Program, r *core.Report, rule string) {
 	info := p.Pkg("").TypesInfo
 	walk := p.Pkg("ast").Types.Scope().Lookup("Walk")
 	n := 0
+	// every read of Config.Visitors (or of a local bound once to it) in the root package
+	// outside the option that appends to it
 	for _, fd := range p.FuncDecls("") {
 		if fd.Body == nil {
 			continue
 		}
-		ast.Inspect(fd.Body, func(nd ast.Node) bool {
-			sel, ok := nd.(*ast.SelectorExpr)
+		defs := eng.SingleDefs(info, fd.Body)
+		isField := func(e ast.Expr) bool {
+			sel, ok := eng.Unparen(e).(*ast.SelectorExpr)
 			if !ok || sel.Sel.Name != "Visitors" {
+				return false
+			}
+			t := info.TypeOf(sel.X)
+			return t != nil && strings.HasSuffix(t.String(), "conf.Config")
+		}
+		isList := func(e ast.Expr) bool {
+			if isField(e) {
 				return true
 			}
-			if t := info.TypeOf(sel.X); t == nil || !strings.HasSuffix(t.String(), "conf.Config") {
-				return true
+			if id, ok := eng.Unparen(e).(*ast.Ident); ok {
+				if d := defs.Def(info.Uses[id]); d != nil && isField(d) {
+					return true
+				}
 			}
-			return true
-		})
-	}
-	// every read of Config.Visitors in the root package outside the option that appends to it
-	for _, fd := range p.FuncDecls("") {
-		if fd.Body == nil {
-			continue
+			return false
+		}
+		// walksElement: the loop body gives the element an ast.Walk of its own; isElem
+		// recognises the element (the range value, or list[index variable])
+		walksElement := func(body *ast.BlockStmt, isElem func(ast.Expr) bool) bool {
+			ok := false
+			for _, st := range body.List {
+				if es, isE := st.(*ast.ExprStmt); isE {
+					if c, isC := es.X.(*ast.CallExpr); isC && len(c.Args) == 2 {
+						if fn := eng.CalleeOf(info, c); fn != nil && types.Object(fn) == walk && isElem(c.Args[1]) {
+							ok = true
+						}
+					}
+				}
+			}
+			return ok
+		}
+		indexed := func(v types.Object) func(ast.Expr) bool {
+			return func(e ast.Expr) bool {
+				e = defs.Resolve(e)
+				ix, ok := eng.Unparen(e).(*ast.IndexExpr)
+				if !ok || !isList(ix.X) {
+					return false
+				}
+				id, ok := eng.Unparen(ix.Index).(*ast.Ident)
+				return ok && v != nil && objOf(info, id) == v
+			}
 		}
 		var stack []ast.Node
 		ast.Inspect(fd.Body, func(nd ast.Node) bool {
@@ -455,51 +487,81 @@ func visitorLoopRule(p *core.Program, r *core.Report, rule string) {
 				return true
 			}
 			stack = append(stack, nd)
-			sel, ok := nd.(*ast.SelectorExpr)
-			if !ok || sel.Sel.Name != "Visitors" {
+			ex, ok := nd.(ast.Expr)
+			if !ok || !isList(ex) || len(stack) < 2 {
 				return true
 			}
-			if t := info.TypeOf(sel.X); t == nil || !strings.HasSuffix(t.String(), "conf.Config") {
-				return true
+			if _, isSel := nd.(*ast.SelectorExpr); !isSel {
+				if _, isID := nd.(*ast.Ident); !isID {
+					return true
+				}
 			}
-			// classify the use by its parent
-			if len(stack) < 2 {
-				return true
+			key := func() string {
+				n++
+				return fmt.Sprintf("%s/each registered visitor walks the tree on its own#%d", core.FuncName("", fd), n)
 			}
 			switch par := stack[len(stack)-2].(type) {
 			case *ast.RangeStmt:
-				if par.X != ast.Expr(sel) {
+				if par.X != ex {
 					return true
 				}
-				n++
-				key := fmt.Sprintf("%s/each registered visitor walks the tree on its own#%d", core.FuncName("", fd), n)
 				v, _ := par.Value.(*ast.Ident)
+				k, _ := par.Key.(*ast.Ident)
 				ok := false
-				if v != nil {
-					for _, st := range par.Body.List {
-						if es, isE := st.(*ast.ExprStmt); isE {
-							if c, isC := es.X.(*ast.CallExpr); isC && len(c.Args) == 2 {
-								if fn := eng.CalleeOf(info, c); fn != nil && types.Object(fn) == walk {
-									if id, isID := eng.Unparen(c.Args[1]).(*ast.Ident); isID && objOf(info, id) == objOf(info, v) {
-										ok = true
-									}
-								}
-							}
-						}
+				if v != nil && v.Name != "_" {
+					vo := objOf(info, v)
+					ok = walksElement(par.Body, func(e ast.Expr) bool {
+						id, isID := eng.Unparen(e).(*ast.Ident)
+						return isID && objOf(info, id) == vo
+					})
+				}
+				if !ok && k != nil && k.Name != "_" {
+					ok = walksElement(par.Body, indexed(objOf(info, k)))
+				}
+				r.Check(ok, rule, key(), p.Pos(par.Pos()), "for _, v := range config.Visitors { ast.Walk(&tree.Node, v) }", "the loop over the registered visitors does not give each of them an ast.Walk of its own")
+			case *ast.IndexExpr:
+				// visitors[i] inside a counted loop over the list: decided at the loop
+				if par.X != ex {
+					return true
+				}
+				var loop *ast.ForStmt
+				for i := len(stack) - 1; i >= 0; i-- {
+					if f, ok := stack[i].(*ast.ForStmt); ok {
+						loop = f
+						break
 					}
 				}
-				r.Check(ok, rule, key, p.Pos(par.Pos()), "for _, v := range config.Visitors { ast.Walk(&tree.Node, v) }", "the loop over the registered visitors does not give each of them an ast.Walk of its own")
+				if loop == nil {
+					r.Bad(rule, key(), p.Pos(par.Pos()), "one registered visitor is picked out of the list outside a loop over it")
+					return true
+				}
+				cl := eng.AnalyseCountedLoop(info, &eng.AffEnv{Info: info, Vars: map[types.Object]eng.Aff{}}, loop, func(e ast.Expr) (eng.Aff, bool) {
+					if isList(e) {
+						return eng.AffSym("LEN"), true
+					}
+					return eng.Aff{}, false
+				})
+				full := cl.OK && cl.Trips.Equal(eng.AffSym("LEN")) && cl.Var != nil
+				ok := full && walksElement(loop.Body, indexed(cl.Var))
+				r.Check(ok, rule, key(), p.Pos(loop.Pos()), "for i := range visitors { ast.Walk(&tree.Node, visitors[i]) } over the whole list", "the loop over the registered visitors does not give each of them an ast.Walk of its own (it does not cover the whole list, or the walk is not of the indexed visitor)")
 			case *ast.CallExpr:
 				if isBuiltinCall(info, par, "append") || isBuiltinCall(info, par, "len") {
 					return true
 				}
-				n++
-				r.Bad(rule, fmt.Sprintf("%s/each registered visitor walks the tree on its own#%d", core.FuncName("", fd), n), p.Pos(par.Pos()), "the list of registered visitors is handed to `"+eng.ExprStr(par.Fun)+"` instead of being walked one visitor at a time: visitors fused into a single walk never traverse a subtree that an earlier visitor put in place on Exit, so a later patch does not apply inside it")
-			case *ast.AssignStmt, *ast.BinaryExpr:
-				// c.Visitors = append(…) / len(config.Visitors) >= 0
+				r.Bad(rule, key(), p.Pos(par.Pos()), "the list of registered visitors is handed to `"+eng.ExprStr(par.Fun)+"` instead of being walked one visitor at a time: visitors fused into a single walk never traverse a subtree that an earlier visitor put in place on Exit, so a later patch does not apply inside it")
+			case *ast.AssignStmt:
+				// c.Visitors = append(…) / visitors := config.Visitors (the alias is followed)
+				if len(par.Lhs) == 1 && len(par.Rhs) == 1 && par.Rhs[0] == ex {
+					if id, ok := par.Lhs[0].(*ast.Ident); ok {
+						if d := defs.Def(objOf(info, id)); d == nil {
+							r.Bad(rule, key(), p.Pos(par.Pos()), "the list of registered visitors is copied into `"+id.Name+"`, which is assigned more than once: its later uses cannot be followed")
+						}
+					}
+				}
+			case *ast.BinaryExpr:
+				// len(config.Visitors) >= 0
 			default:
-				n++
-				r.Bad(rule, fmt.Sprintf("%s/each registered visitor walks the tree on its own#%d", core.FuncName("", fd), n), p.Pos(nd.Pos()), fmt.Sprintf("the list of registered visitors is used in a %T, not walked one visitor at a time", par))
+				r.Bad(rule, key(), p.Pos(nd.Pos()), fmt.Sprintf("the list of registered visitors is used in a %T, not walked one visitor at a time", par))
 			}
 			return true
 		})
